@@ -8,7 +8,7 @@ import time
 import traceback
 
 
-class CaseTimeout(Exception):
+class CaseTimeout(BaseException):  # not an Exception: monitors catching Exception around the monitored call must not see it
     pass
 
 
